@@ -112,17 +112,14 @@ func coerceInt(value interface{}) interface{} {
 		}
 		return coerceInt(*value)
 	case float32:
-		if value < float32(math.MinInt32) || value > float32(math.MaxInt32) {
-			return nil
-		}
-		return int(value)
+		return coerceInt(float64(value))
 	case *float32:
 		if value == nil {
 			return nil
 		}
 		return coerceInt(*value)
 	case float64:
-		if value < float64(math.MinInt32) || value > float64(math.MaxInt32) {
+		if math.IsNaN(value) || value < float64(math.MinInt32) || value > float64(math.MaxInt32) {
 			return nil
 		}
 		return int(value)
